@@ -23,6 +23,15 @@ mod verif_nx_pipeline {
         }
     }
 
+    trait CfgExt {
+        fn line_ending_is_crlf(&self) -> bool;
+    }
+    impl CfgExt for FormattingConfig {
+        fn line_ending_is_crlf(&self) -> bool {
+            matches!(self.line_ending, LineEnding::Crlf)
+        }
+    }
+
     fn blank(c: char) -> bool {
         c <= '\u{20}' || c == '\u{3000}'
     }
@@ -210,6 +219,27 @@ mod verif_nx_pipeline {
             n += 1;
         });
         n
+    }
+
+    // C09 third clause: the line endings of the INPUT do not matter (inputs without line-spanning tokens), also for
+    // malformed lines such as an unterminated literal or a comment at the end of a line
+    #[test]
+    fn verif_nx_pipeline_input_line_endings() {
+        let lines = ["A := 1;", "S := 'abc", "B := 'x' + 'y'; // note", "{$ifdef X}", "{$endif}", "if A then", "  B;", "", "Foo(1,", "  2);", "// c", "\"q"];
+        let cfgs = [leak(config(false, 2, 2, false, 60, false)), leak(config(false, 2, 2, true, 60, false))];
+        let mut n = 0u64;
+        for a in lines { for b in lines { for c in lines { for cfg in cfgs {
+            let lf = format!("{a}\n{b}\n{c}\n");
+            let crlf = format!("{a}\r\n{b}\r\n{c}\r\n");
+            let (o1, _) = fmt(cfg, &lf, Vec::new());
+            let (o2, _) = fmt(cfg, &crlf, Vec::new());
+            assert!(o1 == o2, "OB pipeline/input_endings_do_not_matter: CRLF input gives the same output as LF input\n input={:?}\n from_lf={:?}\n from_crlf={:?}", lf, o1, o2);
+            let nl = if cfg.line_ending_is_crlf() { "\r\n" } else { "\n" };
+            assert!(!o1.replace(nl, "").contains('\r') && !o1.replace(nl, "").contains('\n'), "OB pipeline/only_configured_line_ending: every line break in the output is the configured line ending\n input={:?}\n output={:?}", lf, o1);
+            n += 1;
+        }}}}
+        println!("NX pipeline_input_line_endings: {} cases", n);
+        assert!(n > 3_000, "enumeration ran");
     }
 
     // C07: a region between `pasfmt off` and `pasfmt on` is emitted byte for byte, wherever it is placed
